@@ -212,4 +212,35 @@ def user_tagged(w, seed, spec):
                                      f'({type(o).__name__} wrapping a user operator declared {type(op).__name__})')
             if len(fails) > 6:
                 return fails[:8]
+        # composites of tagged user operators: products and sums in both orders, scalar multiples, block diagonals — a tag
+        # derived from the parts must hold for the matrix of the whole (symmetric x symmetric is not symmetric unless
+        # the factors commute; triangular x triangular of opposite kinds is not triangular; ...)
+        from furax._base.blocks import BlockDiagonalOperator
+        S2 = Sym(jnp.asarray((R + R.T)[::-1, ::-1] * np.arange(1, n + 1, dtype=np.float32)[:, None]
+                             + ((R + R.T)[::-1, ::-1] * np.arange(1, n + 1, dtype=np.float32)[:, None]).T))
+        comps = {}
+        for a, b in [('S', 'D'), ('D', 'S'), ('S', 'P'), ('L', 'U'), ('U', 'L'), ('P', 'N'), ('L', 'D'), ('P', 'P')]:
+            comps[f'{a}@{b}'] = ops[a] @ ops[b]
+            comps[f'{a}+{b}'] = ops[a] + ops[b]
+        comps['S@S2'] = ops['S'] @ S2
+        comps['2*S'] = 2 * ops['S']
+        comps['D@S@D'] = ops['D'] @ ops['S'] @ ops['D']
+        comps['BD[S,L]'] = BlockDiagonalOperator([ops['S'], ops['L']])
+        for label, o in comps.items():
+            try:
+                mat = dense(o)
+            except Exception as e:      # noqa: BLE001
+                fails.append(f'{label}: dense form: {type(e).__name__}')
+                continue
+            for tag, holds in TAGS.items():
+                try:
+                    v = getattr(lx, tag)(o)
+                except Exception as e:      # noqa: BLE001
+                    fails.append(f'{label}: lineax.{tag} raises {type(e).__name__}')
+                    continue
+                if v is True and not holds(np.asarray(mat, np.float64)):
+                    fails.append(f'{label}: lineax.{tag} is True but the dense matrix of the {type(o).__name__} does not have '
+                                 f'the property')
+            if len(fails) > 6:
+                return fails[:8]
     return fails[:8]
